@@ -24,7 +24,7 @@ ASSUMPTIONS = [
 
 RULE_C05 = ("seeded moment quadruples: von-Mises mixtures (1-2 lobes + isotropic background, widths 3..120 degrees), the same plus "
             "noise, uniformly random quadruples with a1^2+b1^2<1 (mostly unrealisable), the five hard cases of the test-suite, and "
-            "the MEM boundary point; N in 8..180; batch shapes (), (nf,), (nt,nf), (nt,nx,nf); variants mem, mem2/newton, "
+            "the MEM boundary point; N in 8..180 (every N once for the direction axis / round trip); batch shapes (), (nf,), (nt,nf), (nt,nx,nf); variants mem, mem2/newton, "
             "mem2/scipy, mem2/approximate; one case = one (quadruple, N, variant); non-trivial unless isotropic")
 RULE_C06 = ("moments of von-Mises mixtures (1-2 lobes + background) with circular spread >= 1.5 bins and mean directions in all "
             "quadrants, N in {24,36,72,144}; all rotations k and the mirror image; the five hard cases with rotations and mirrors; "
@@ -360,6 +360,32 @@ def batches(run, im, rng, ncases):
                                        max_abs_diff=float(np.max(np.abs(alone - E2f[i, j])))))
 
 
+def grid_sweep(run, im, rng):
+    """every number of directions 8..180 once: the direction axis, the shape and the energy round trip"""
+    with warnings.catch_warnings():
+        warnings.simplefilter("ignore")
+        _, f = sp.freq_grid(rng, 3)
+        quads = np.array([quadruple(rng)[0] for _ in range(len(f))])
+        e = sp.energy(rng, (len(f),), nan_rate=0.0, positive=True)
+        spec, _ = sp.make_1d(rng, layout="scalar", f=f, e=e, moments=tuple(quads[:, i] for i in range(4)), depth_mode="deep")
+        for n in range(8, 181):
+            with common.guard(run, f"grid sweep N={n}"):
+                run.case("grid_sweep", key=(n,))
+                variant = "mem" if n % 4 else "mem2/approximate"
+                s2 = spec.as_frequency_direction_spectrum(n, method="mem" if variant == "mem" else "mem2",
+                                                          solution_method="scipy" if variant == "mem" else "approximate")
+                d = s2.direction.values
+                info = dict(N=n, variant=variant)
+                if len(d) != n or s2.variance_density.shape[-1] != n:
+                    run.violation("the 2D spectrum does not have the requested number of directions", dict(info, got=len(d)))
+                    continue
+                if not np.allclose(d, np.linspace(0, 360, n, endpoint=False), rtol=0, atol=1e-9) or len(np.unique(np.round(d, 6))) != n:
+                    run.violation("the direction axis is not the uniform grid of N distinct directions from 0", info)
+                back = s2.as_frequency_spectrum().variance_density.values
+                if not np.allclose(back, e, rtol=1e-9, atol=0):
+                    run.violation("integrating the 2D spectrum over direction does not return e(f)", dict(info, max_rel=float(np.max(np.abs(back - e) / e))))
+
+
 # ------------------------------------------------------------------------------------------
 # C06 oracles
 # ------------------------------------------------------------------------------------------
@@ -557,6 +583,7 @@ def main(prop, tier, seed):
             correspondence(run, drv, im, run.rng, 400 if thorough else 60)
             validity(run, im, run.rng, 1500 if thorough else 150)
             batches(run, im, run.rng, 120 if thorough else 16)
+            grid_sweep(run, im, run.rng)
             rule = RULE_C05
         else:
             correspondence(run, drv, im, run.rng, 200 if thorough else 30)
